@@ -1968,5 +1968,29 @@ theorem eval_terminates (impl : FmtImpl) :
 end Top
 end Fuel
 
+/-! ### why the set-iteration oracle must answer with elements of the set
+
+`additionalProperties` iterates over `set(extras)` in the order given by the oracle `env.setOrder` and
+looks each key up in the instance (`instance[extra]`).  With an oracle that answers with a key that is
+not in the set, the model stops with `KeyError` on the shaped, reference-free Draft 7 schema
+`{"additionalProperties": {}}` and the instance `{"a": null}` — although every regular expression
+compiles.  Hence the hypothesis `Spec.SetOrderOk` (used through `SetOrderMem`) of the C03 theorems. -/
+namespace SetOrderCex
+def env : Env :=
+  ⟨fun _ _ => some (some false), fun _ _ => none, fun _ => none, fun _ => none, fun _ => none,
+   fun _ => none, fun _ => some ["b".toList], fun _ _ => none, fun _ _ => none⟩
+def impl : FmtImpl := ⟨fun _ _ => none⟩
+def st : RState := ⟨[], [], [], none, false, 0, []⟩
+def schema : Json := .obj [("additionalProperties".toList, .obj [])]
+def inst : Json := .obj [("a".toList, .null)]
+
+theorem regexOk : ∀ p s, env.reSearch p s ≠ some none := by intro p s h; cases h
+theorem schema_shaped : Spec.shaped .d7 schema = true := by decide +kernel
+theorem crashes :
+    (match (eval env impl (Draft.d7.cfg none) 1 inst schema none st).stop with
+     | .raised (.crash cls) => cls == "KeyError"
+     | _ => false) = true := by decide +kernel
+end SetOrderCex
+
 end NoCrash
 end JS
